@@ -189,6 +189,9 @@ def _blob(rng, big_ok: bool):
         return None
     if c < 0.35:
         return ""
+    if big_ok and c < 0.353:
+        # a record above the broker's default message.max.bytes (legal where that limit was raised)
+        return rng.randbytes(rng.choice((1048576, 1048577, 1300000))).hex()
     if big_ok and c < 0.37:
         return rng.randbytes(rng.choice((8191, 16384, 65536))).hex()
     return rng.randbytes(rng.choice((1, 2, 3, 7, 63, 64, 65, 127, 128, 300))).hex()
